@@ -374,12 +374,12 @@ Definition run_of (r : list token * scan_end) (K : nat) : list (event * span) * 
 Lemma run_str_of orig :
   run_str orig = run_of (scan_all str_ops (2 * length orig + 10) (4 * (2 * length orig + 10) + 20)
                                   (init_sc {| si_chars := orig; si_look := 0 |}) [])
-                        (4 * (2 * length orig + 10) + 20).
+                        (4 * (4 * (2 * length orig + 10) + 20) + 40).
 Proof. unfold run_str, run_of. cbv zeta. destruct (scan_all _ _ _ _ _) as [toks se]. reflexivity. Qed.
 Lemma run_buf_of cap orig :
   run_buf cap orig = run_of (scan_all (buf_ops cap) (2 * length orig + 10) (4 * (2 * length orig + 10) + 20)
                                       (init_sc {| b_buf := []; b_rest := orig |}) [])
-                            (4 * (2 * length orig + 10) + 20).
+                            (4 * (4 * (2 * length orig + 10) + 20) + 40).
 Proof. unfold run_buf, run_of. cbv zeta. destruct (scan_all _ _ _ _ _) as [toks se]. reflexivity. Qed.
 
 (* both scanner runs end properly: the pipelines agree *)
@@ -402,8 +402,8 @@ Theorem run_str_buf_agree : forall orig cap, 8 <= cap ->
   run_str orig = run_buf cap orig \/ pend_bad (snd (run_str orig)) \/ pend_bad (snd (run_buf cap orig)).
 Proof.
   intros orig cap Hc H1 H2 H3 H4 H5 H6. rewrite run_str_of, run_buf_of.
-  set (F := 2 * length orig + 10). set (K := 4 * F + 20).
-  pose proof (scan_str_buf_agree orig cap Hc H1 H2 H3 H4 H5 H6 F K) as HA.
+  set (F := 2 * length orig + 10). set (K0 := 4 * F + 20). set (K := 4 * K0 + 40).
+  pose proof (scan_str_buf_agree orig cap Hc H1 H2 H3 H4 H5 H6 F K0) as HA.
   match type of HA with scan_agree ?a ?b => change (run_of a K = run_of b K \/ pend_bad (snd (run_of a K))
                                                    \/ pend_bad (snd (run_of b K))); generalize dependent a;
                                             generalize dependent b end.
